@@ -58,6 +58,9 @@ def message_case(draw, size_directed_share: int = 3, max_small: int = 12) -> Dic
         'id': draw(st.sampled_from([0, 1, 0x1234, 0xFFFF])),
         'names': names,
         'via_incoming': draw(st.sampled_from([False, False, False, True])),
+        # the entry objects have a history: they went into an earlier message first (questions with the other QU bit, records in
+        # reverse order - another compression context), as when one question / record object is used for several transmissions
+        'used_before': draw(st.sampled_from([False, False, True])),
     }
     case['q'] = draw(st.lists(gen.question(names), max_size=max_small if not response else 2))
     ans = draw(st.lists(gen.record(names), max_size=max_small))
@@ -307,8 +310,23 @@ def build_packets(case: Dict[str, Any], secs: Dict[str, List[Dict[str, Any]]]) -
 
     flags = (0x8000 | (0x0400 if case['aa'] else 0)) if case['response'] else 0
     out = DNSOutgoing(flags, case['multicast'], case['id'])
-    for q in secs['q']:
-        out.add_question(DNSQuestion(q['name'], q['type'], q['cls'] | (0x8000 if q['qu'] else 0)))
+    used = bool(case.get('used_before'))
+    qobjs = [DNSQuestion(q['name'], q['type'], q['cls'] | (0x8000 if (q['qu'] != used) else 0)) for q in secs['q']]
+    robjs: Dict[str, List[Any]] = {}
+    for sec in ('an', 'ns', 'ar'):
+        robjs[sec] = [make_record(r, answer_now_created(r)[1] if sec == 'an' else None) for r in secs[sec]]
+    if used:
+        before = DNSOutgoing(flags, case['multicast'], case['id'])
+        for qo in qobjs:
+            before.add_question(qo)
+        for sec in ('ar', 'ns', 'an'):
+            for ro in reversed(robjs[sec]):
+                before.add_answer_at_time(ro, 0)
+        before.packets()
+        for qo, q in zip(qobjs, secs['q']):
+            qo.unicast = q['qu']                # the public setter: this time the question is asked the other way
+    for qo in qobjs:
+        out.add_question(qo)
     inp = None
     if case.get('via_incoming'):
         # the other documented way to add an answer: add_answer(incoming_query, record) - the record goes in with its full TTL
@@ -317,16 +335,16 @@ def build_packets(case: Dict[str, Any], secs: Dict[str, List[Dict[str, Any]]]) -
         from zeroconf import DNSIncoming
 
         inp = DNSIncoming(bytes(12), ('10.0.0.9', 5353), None, CREATED_BASE + 5000.0)
-    for r in secs['an']:
+    for r, ro in zip(secs['an'], robjs['an']):
         now, created = answer_now_created(r)
         if inp is not None and now == 0:
-            out.add_answer(inp, make_record(r, created))
+            out.add_answer(inp, ro)
         else:
-            out.add_answer_at_time(make_record(r, created), now)
-    for r in secs['ns']:
-        out.add_authorative_answer(make_record(r))
-    for r in secs['ar']:
-        out.add_additional_answer(make_record(r))
+            out.add_answer_at_time(ro, now)
+    for ro in robjs['ns']:
+        out.add_authorative_answer(ro)
+    for ro in robjs['ar']:
+        out.add_additional_answer(ro)
     first = out.packets()
     # the finished message is what gets sent - more than once when an announcement or goodbye is repeated: asking for the datagrams
     # again must give the same sequence
